@@ -10,6 +10,8 @@
 //    on it (non CLOSE_ON_FREE fds are closed after event_base_free);
 //  * a direction on which EOF/ERROR was reported is not re-enabled (the repeat report would be application-provoked);
 //  * filters honour `limit`, return BEV_OK iff they moved bytes, BEV_NEED_MORE otherwise.
+// C18 only (input decoding of C17/C19 is unchanged): RECORD filters (<= K bytes per call), the model of the high write watermark set on a
+// bufferevent under a filter (monitor key C18/filter-output-above-high), boundary-aimed write/read ops (O_WAIM / O_RAIM).
 #pragma once
 #include "verif.h"
 #include "sim.h"
@@ -581,6 +583,8 @@ static void settle() {
     for (int i = 0; i < 2; i++) { End &e = W->e[i]; if (!e.live) continue;
       // one flush call moves data up by one layer only (be_filter_flush handles its own layer before the lower one)
       for (int k = 1; k < e.nl; k++) { W->e[0].hi_excuse = W->e[1].hi_excuse = true; bufferevent_flush(top(e), EV_READ | EV_WRITE, BEV_FLUSH); }
+      // with reading disabled (EOF already reported) a flush makes ONE filter call per layer: a record filter then moves one record per flush, keep going while it moves data
+      if (W->any_cap && e.nl > 1) { int g = 0; while (bufferevent_flush(top(e), EV_READ | EV_WRITE, BEV_FLUSH) > 0 && ++g < (1 << 19)) {} }
       if (e.nl > 1) for (int k = 0; k < 2; k++) if (W->e[k].live) W->e[k].total_at_last_rcb = in_total(W->e[k]);   // a flush moves data without a read callback
       app_read(e, (size_t)-1, "settle"); }
     do_turn(EVLOOP_NONBLOCK, "settle");
@@ -672,7 +676,7 @@ static int run_case(const uint8_t *data, size_t size, int prop) {
     // op table: weights differ per property
     enum { O_WRITE, O_TURN, O_READ, O_ENABLE, O_DISABLE, O_WM, O_FLUSH, O_SHUT, O_FREE, O_FAULT, O_SETCB, O_CONNECT, O_UWM, O_CLRFAULT, O_WAIM, O_RAIM };
     static const uint8_t T17[NOP] = {0, O_WRITE, O_WRITE, O_WRITE, O_WRITE, O_WRITE, O_WRITE, O_WRITE, O_TURN, O_TURN, O_TURN, O_TURN, O_TURN, O_TURN, O_READ, O_READ, O_READ, O_ENABLE, O_ENABLE, O_DISABLE, O_DISABLE, O_WM, O_FLUSH, O_FLUSH, O_SHUT, O_FREE, O_FAULT, O_FAULT, O_FAULT, O_SETCB, O_CLRFAULT, O_UWM};
-    static const uint8_t T18[NOP] = {0, O_WAIM, O_WRITE, O_WRITE, O_WRITE, O_WRITE, O_WRITE, O_TURN, O_TURN, O_TURN, O_TURN, O_TURN, O_TURN, O_RAIM, O_READ, O_READ, O_READ, O_READ, O_ENABLE, O_ENABLE, O_DISABLE, O_WM, O_WM, O_WM, O_WM, O_WM, O_FLUSH, O_UWM, O_UWM, O_SHUT, O_FREE, O_FAULT};
+    static const uint8_t T18[NOP] = {0, O_WRITE, O_WRITE, O_WRITE, O_WAIM, O_WRITE, O_WRITE, O_TURN, O_TURN, O_TURN, O_TURN, O_TURN, O_TURN, O_READ, O_READ, O_READ, O_RAIM, O_READ, O_ENABLE, O_ENABLE, O_DISABLE, O_WM, O_WM, O_WM, O_WM, O_WM, O_FLUSH, O_UWM, O_UWM, O_SHUT, O_FREE, O_FAULT};
     static const uint8_t T19[NOP] = {0, O_WRITE, O_WRITE, O_WRITE, O_WRITE, O_WRITE, O_TURN, O_TURN, O_TURN, O_TURN, O_TURN, O_TURN, O_READ, O_READ, O_ENABLE, O_ENABLE, O_DISABLE, O_WM, O_FLUSH, O_SHUT, O_SHUT, O_FREE, O_FREE, O_FAULT, O_FAULT, O_SETCB, O_SETCB, O_SETCB, O_CONNECT, O_CONNECT, O_CONNECT, O_CONNECT};
     int o = force_connect ? (int)O_CONNECT : (prop == 17 ? T17 : prop == 18 ? T18 : T19)[op];
     if (o == O_TURN) { do_turn(s.below(3) == 1 ? EVLOOP_ONCE : EVLOOP_NONBLOCK, "op"); post_op("turn"); continue; }
@@ -709,12 +713,14 @@ static int run_case(const uint8_t *data, size_t size, int prop) {
         else if (e.fd >= 0) { static const long SH[] = {1, 2, 100, 4096}; room = (size_t)SH[s.below(4)]; sim_script(SYS_WRITEV, e.fd, ACT_SHORT, (long)room); w.faults_armed = w.any_fault = true; TR("op: fault on %c writev short %zu", 'A' + e.id, room); }
         size_t cur = outlen(top(e)); long long n = (long long)e.wlow + d + (long long)room - (long long)cur;
         if (n < 1) n = 1; if (n > 65536) n = 65536; if (w.any_cap && n > 16384) n = 16384;
-        w.n_aimed++; app_write(e, (size_t)n, "op(aimed)"); } break;
+        w.n_aimed++; app_write(e, (size_t)n, "op(aimed)");
+        // a socket only drains inside the loop: optionally run exactly one productive pass (EVLOOP_ONCE) so that the boundary state is what the turn ends in
+        if (w.kind == K_SOCK && e.nl == 1 && e.live && s.flag()) { post_op("op"); do_turn(EVLOOP_ONCE, "op(aimed)"); } } break;
       case O_RAIM: {
         // boundary-aimed read (C18): leave high-1 / high / high+1 or low-1 / low / low+1 bytes around the READ watermarks in the input, or (direct
         // pair, partner's output waiting) read just enough that the partner's output drops to low-1 / low / low+1 around its low WRITE watermark
         size_t have = inlen(top(e)); int d = (int)s.below(3) - 1; int how = s.below(3); long long n = -1; End &p = peer(e);
-        if (how == 2 && w.kind == K_PAIR && e.nl == 1 && p.live && p.nl == 1 && outlen(top(p)) > p.wlow) n = (long long)outlen(top(p)) - (long long)p.wlow - d;
+        if (how != 0 && w.kind == K_PAIR && e.nl == 1 && p.live && p.nl == 1 && p.wlow && outlen(top(p)) > p.wlow) n = (long long)outlen(top(p)) - (long long)p.wlow - d;
         else if (how >= 1 && e.rhigh) n = (long long)have - (long long)e.rhigh - d;
         else n = (long long)have - (long long)e.rlow - d;
         if (n >= 1 && (size_t)n <= have) { w.n_aimed++; app_read(e, (size_t)n, "op(aimed)"); } break; }
